@@ -158,8 +158,9 @@ CHECKS["C19"] = (
     "EditDistance.tla: documented Damerau-Levenshtein distance and a transcription of the Levenshtein NFA; TLC "
     "checks NFA == distance for all words up to 3 letters over {a,b}, k<=2, every prefix. terms_within / FuzzyTerm "
     "/ suggest on real one- and three-segment indexes whose lexicon is every word up to 3-4 letters (plus "
-    "multi-byte letters), for every (word, k, prefix incl. longer than the word), judged by TLC.",
-    "DESIGN.md 4.8, 5 (C19)",
+    "multi-byte letters), for every (word, k, prefix incl. longer than the word), judged by TLC; "
+    "Searcher.correct_query on typed queries mixing terms and non-terms (CorrectFacts).",
+    "DESIGN.md 4.8, 5 (C19), 13.7",
     "Recorded findings: segment readers expand with plain Levenshtein (test-pinned through the spelling tests), "
     "suggestions include the word itself and are not ranked by closeness (test-pinned).",
     "TLA+ distance/automaton spec model-checked exhaustively + TLC-judged fuzzy expansions of the real code")
@@ -213,10 +214,12 @@ CHECKS["C14"] = (
     "page arithmetic; real searches over random multi-segment indexes with deletions, missing values, column-backed "
     "and posting-backed facet fields (int, text, datetime, boolean, keyword), stored-field facets, range facets "
     "(gap sequences, hardend) and query facets (as sort keys and as groupings, overlapping or not, with an 'other' key) "
-    "are judged by TLC.",
-    "DESIGN.md 4.10, 5 (C14)", "Exact regime (scoring.Frequency, dyadic boosts). Where a document lacks a sort key its "
+    "are judged by TLC; so are date range facets, the FacetMap views (OrderedList, UnorderedList, Count, Best), "
+    "collapse_order, collapsed_counts and len() of collapsed results, the limit with groupedby/reverse, and "
+    "Results.extend/filter/upgrade/upgrade_and_extend.",
+    "DESIGN.md 4.10, 5 (C14), 13.7", "Exact regime (scoring.Frequency, dyadic boosts). Where a document lacks a sort key its "
     "position is not fixed by the property: only the relative order of the documents that have all keys, and the "
-    "membership, are judged. FunctionFacet, DateRangeFacet and collapse_order are not generated.",
+    "membership, are judged. FunctionFacet is not generated.",
     "TLA+ results-view spec (sort/group/collapse/filter/page) as oracle for real searches")
 
 CHECKS["C16"] = (
